@@ -681,10 +681,45 @@ def _local_types(repo, f: FuncInfo) -> dict[str, str]:
         names = [n_ for n_ in names if repo.find_class(n_) is not None]
         return names[0] if len(set(names)) == 1 else None
 
+    elem_of: dict[str, str] = {}   # local container name -> class of its elements
+
+    def ann_class(ann) -> str | None:
+        names = [x.id for x in ast.walk(ann) if isinstance(x, ast.Name) and x.id not in ("Iterator", "Iterable", "list", "tuple", "None", "Optional", "Any", "Sequence")]
+        names = [n_ for n_ in names if repo.find_class(n_) is not None]
+        return names[0] if len(set(names)) == 1 else None
+
+    def elems_class(e) -> str | None:
+        """class of the elements of a container expression"""
+        if isinstance(e, ast.Call):
+            return result_class(e)
+        if isinstance(e, ast.Name):
+            return elem_of.get(e.id)
+        if isinstance(e, (ast.List, ast.Tuple)):
+            cs = {result_class(x) if isinstance(x, ast.Call) else env.get(x.id) if isinstance(x, ast.Name) else None for x in e.elts}
+            return next(iter(cs)) if len(cs) == 1 and None not in cs else None
+        if isinstance(e, ast.IfExp):
+            a, b = elems_class(e.body), elems_class(e.orelse)
+            if isinstance(e.orelse, (ast.List, ast.Tuple)) and not e.orelse.elts:
+                return a
+            if isinstance(e.body, (ast.List, ast.Tuple)) and not e.body.elts:
+                return b
+            return a if a == b else None
+        return None
+
     for _ in range(3):
         for n in walk_no_nested(f.node):
-            if isinstance(n, (ast.For, ast.comprehension)) and isinstance(n.target, ast.Name) and isinstance(n.iter, ast.Call):
-                rc = result_class(n.iter)
+            if isinstance(n, ast.AnnAssign) and isinstance(n.target, ast.Name):
+                ac = ann_class(n.annotation)
+                if ac and any(isinstance(x, ast.Name) and x.id in ("Iterator", "Iterable", "list", "tuple", "Sequence") for x in ast.walk(n.annotation)):
+                    elem_of[n.target.id] = ac
+                elif ac:
+                    env[n.target.id] = ac
+            if isinstance(n, ast.Assign) and len(n.targets) == 1 and isinstance(n.targets[0], ast.Name):
+                ec = elems_class(n.value) if not isinstance(n.value, ast.Call) else None
+                if ec and n.targets[0].id not in elem_of:
+                    elem_of[n.targets[0].id] = ec
+            if isinstance(n, (ast.For, ast.comprehension)) and isinstance(n.target, ast.Name):
+                rc = elems_class(n.iter)
                 if rc:
                     env[n.target.id] = rc
             elif isinstance(n, ast.Assign) and len(n.targets) == 1 and isinstance(n.targets[0], ast.Name) and isinstance(n.value, ast.Call):
@@ -748,7 +783,9 @@ def r14e(ctx):
                     base = repo.find_class(cname)
                     culprits = {k: v for k, v in dec.get(prop, {}).items() if (kc := repo.find_class(k)) is not None and base is not None and kc.is_subclass_of(base)}
                 else:
-                    culprits = dec.get(prop, {})
+                    # the class of the element is not known from any annotation: undetermined, reported as such in the evidence, never as a violation
+                    culprits = {}
+                    ctx.unresolved.append(f"R14e {f.ident}: class of `{b.value.id}` in `{norm(c, 40)}` unknown")
                 ok = not culprits
                 ctx.instance("R14e", f"{f.file}:{f.ident}", f"`{norm(c, 40)}`: {b.value.id} is a {cname or 'element of unknown class'}; .{prop} " +
                              ("read as a string" if ok else f"decoded by {sorted(culprits)[:3]}"), ok=ok, nontrivial=True, line=c.lineno)
